@@ -172,6 +172,17 @@ def run(ctx: Ctx) -> int:
             ok = ok and seen == {"and": "all", "or": "any"}
     ctx.oblige("C20.b", ok, jt[0] if jt else vf, "'and' rejects unless all comparisons hold, 'or' rejects unless any holds" if ok else "and/or join logic of restricted numbers changed", fn=vf)
 
+    # deprecated but public: ActionOperators looks a restricted type up in the registry before creating it; the key
+    # (restrictions, type, join) is built from the same values the creation uses
+    aop = ctx.func("_deprecated:ActionOperators.__init__")
+    keys_ = [s for s in walk_local(aop) if isinstance(s, ast.Assign) and isinstance(s.value, ast.Tuple) and len(s.value.elts) == 3 and isinstance(s.targets[0], ast.Name)]
+    mk = [c for c in calls_in(aop) if call_leaf(c) == "restricted_number_type"]
+    ctx.need(len(keys_) == 1 and len(mk) == 1 and len(mk[0].args) >= 4, "ActionOperators.__init__: register_key = (..., type, join) and restricted_number_type(None, type, expr, join)")
+    k_type, k_join = ast.unparse(keys_[0].value.elts[1]), ast.unparse(keys_[0].value.elts[2])
+    c_type, c_join = ast.unparse(mk[0].args[1]), ast.unparse(mk[0].args[3])
+    ok = k_type == c_type and k_join == c_join
+    ctx.oblige("C20.b", ok, keys_[0], "the registry lookup of ActionOperators uses the type and join the creation would use" if ok else f"ActionOperators looks up ({k_type}, {k_join}) but creates with ({c_type}, {c_join}): an operator whose expression matches an already registered type of ANOTHER base type / join silently gets that class (an int operator accepts 1.5, an `or` restriction behaves as `and`)", fn=aop, construct="operators key agrees with creation")
+
     # ---------------- C20.c ---------------------------------------------------
     rt = ctx.func("typing:register_type")
     default_exc: Set[str] = set()
